@@ -1,0 +1,128 @@
+//! Verification hooks (cfg(feature = "verif"), add-only).
+//!
+//! Lets the external harness build the user-facing ends of a notification protocol
+//! ([`NotificationHandle`], [`NotificationSink`]) and the per-stream [`Connection`] task over
+//! substreams of its own, without a `NotificationProtocol`/`TransportService`. `open` is a
+//! transcription of the `PeerState::Validating -> PeerState::Open` arm of
+//! `NotificationProtocol::on_handshake_event`.
+
+use crate::{
+    protocol::notification::{
+        connection::Connection,
+        handle::{NotificationEventHandle, NotificationHandle, NotificationSink},
+        types::{Direction, InnerNotificationEvent, NotificationCommand},
+    },
+    substream::Substream,
+    types::protocol::ProtocolName,
+    PeerId,
+};
+
+use bytes::BytesMut;
+use futures::future::BoxFuture;
+use parking_lot::RwLock;
+use tokio::sync::{
+    mpsc::{channel, Receiver, Sender},
+    oneshot,
+};
+
+use std::sync::Arc;
+
+/// The protocol-side ends of the channels of one [`NotificationHandle`].
+pub struct ProtocolSide {
+    protocol: ProtocolName,
+    event_tx: Sender<InnerNotificationEvent>,
+    notif_tx: Sender<(PeerId, BytesMut)>,
+    shutdown_tx: Sender<PeerId>,
+    /// Commands sent by the handle (`ForceClose`, ...).
+    pub command_rx: Receiver<NotificationCommand>,
+    /// "Connection closed, notify protocol" messages of the [`Connection`] tasks.
+    pub shutdown_rx: Receiver<PeerId>,
+}
+
+/// Create a [`NotificationHandle`] and the protocol-side ends of its channels.
+pub fn new_handle(
+    protocol: ProtocolName,
+    event_channel_size: usize,
+    notif_channel_size: usize,
+    command_channel_size: usize,
+) -> (NotificationHandle, ProtocolSide) {
+    let (event_tx, event_rx) = channel(event_channel_size);
+    let (notif_tx, notif_rx) = channel(notif_channel_size);
+    let (command_tx, command_rx) = channel(command_channel_size);
+    let (shutdown_tx, shutdown_rx) = channel(event_channel_size);
+    let handle = NotificationHandle::new(
+        event_rx,
+        notif_rx,
+        command_tx,
+        Arc::new(RwLock::new(Vec::new())),
+        protocol.clone(),
+    );
+
+    (
+        handle,
+        ProtocolSide {
+            protocol,
+            event_tx,
+            notif_tx,
+            shutdown_tx,
+            command_rx,
+            shutdown_rx,
+        },
+    )
+}
+
+impl ProtocolSide {
+    /// Open a notification stream to `peer` over the given substreams: create the sink channels
+    /// and the [`Connection`], report the stream to the handle, return the connection's event
+    /// loop (to be spawned by the caller), its shutdown handle and a copy of the sink.
+    pub async fn open(
+        &self,
+        peer: PeerId,
+        inbound: Substream,
+        outbound: Substream,
+        sync_channel_size: usize,
+        async_channel_size: usize,
+        handshake: Vec<u8>,
+    ) -> (BoxFuture<'static, ()>, oneshot::Sender<()>, NotificationSink) {
+        let (async_tx, async_rx) = channel(async_channel_size);
+        let (sync_tx, sync_rx) = channel(sync_channel_size);
+        let sink = NotificationSink::new(peer, sync_tx, async_tx);
+        let event_handle = NotificationEventHandle::new(self.event_tx.clone());
+
+        let (connection, shutdown) = Connection::new(
+            peer,
+            inbound,
+            outbound,
+            event_handle.clone(),
+            self.shutdown_tx.clone(),
+            self.notif_tx.clone(),
+            async_rx,
+            sync_rx,
+        );
+
+        event_handle
+            .report_notification_stream_opened(
+                self.protocol.clone(),
+                None,
+                Direction::Outbound,
+                peer,
+                handshake,
+                sink.clone(),
+            )
+            .await;
+
+        (Box::pin(async move { connection.start().await }), shutdown, sink)
+    }
+
+    /// Free slots of the channel that carries received notifications to the handle.
+    pub fn notif_free(&self) -> usize {
+        self.notif_tx.capacity()
+    }
+}
+
+impl NotificationSink {
+    /// Free slots of the (synchronous, asynchronous) notification queues.
+    pub fn verif_free(&self) -> (usize, usize) {
+        self.verif_capacities()
+    }
+}
